@@ -33,6 +33,8 @@ func NewTimerRegistry(store *TimerStore, srIDs []string) *TimerRegistry {
 	return &TimerRegistry{
 		upstreams: upstreams,
 		store:     store,
+		// Until a source runner reports, the watermark is the epoch like the upstreams
+		watermark: time.Unix(0, 0),
 	}
 }
 
